@@ -333,14 +333,13 @@ func (l *log) GetByTime(start time.Time) (message.Message, error) {
 	for i := len(l.readers) - 1; i >= 0; i-- {
 		rdr := l.readers[i]
 
-		switch msg, err := rdr.GetByTime(ts, tctx); err {
+		switch msg, err := rdr.GetByTime(ts, tctx, i > 0); err {
 		case nil:
-			if i > 0 && msg.Offset == rdr.GetOffset() {
-				// first message of the segment: an equal time may end the previous
-				// segment, which then reports the earlier message (or after end)
-				continue
-			}
 			return msg, nil
+		case errTimeAtStart:
+			// first message of the segment: an equal time may end the previous
+			// segment, which then reports the earlier message (or after end)
+			continue
 		case index.ErrTimeIndexEmpty:
 			// empty head segment, try the rest
 			if i == 0 {
